@@ -917,6 +917,27 @@ pub fn shared_storage_scenario(name: &str, depth: usize, extra: &[Op]) -> Scenar
     }
 }
 
+/// Replica 0 holds three commits and travels back in time; replica 1 holds only the first. Melds in both
+/// directions from / into the travelled replica, refreshes, reloads, and commits made in the past.
+pub fn travel_meld_scenario(name: &str, depth: usize, extra: &[Op]) -> Scenario {
+    let docs = vec![json!({"l♭":[x(), y()]}), json!({"l♭":[x2(), y()]}), json!({"l♭":[x2(), y(), z()]}), json!({"l♭":[y()], "s":"t"})];
+    let mut alphabet = vec![Op::Travel(0, 0), Op::Travel(0, 1), Op::Meld(1, 0), Op::Sync(1, 0), Op::Refresh(1), Op::Reload(0), Op::Upd(0, 3), Op::Commit(0, 0), Op::Meld(0, 1), Op::Upd(1, 3), Op::Commit(1, 1), Op::Travel(1, 0)];
+    alphabet.extend_from_slice(extra);
+    let mut sc = Scenario {
+        name: name.to_string(),
+        nrep: 2,
+        menu: menu(docs),
+        prologue: vec![Op::Upd(0, 0), Op::Commit(0, 0), Op::Sync(1, 0), Op::Upd(0, 1), Op::Commit(0, 0), Op::Upd(0, 2), Op::Commit(0, 0)],
+        alphabet,
+        key_opts: KeyOpts::default(),
+        max_depth: depth,
+        track: true,
+        order: None,
+    };
+    sc.key_opts.heads = true;
+    sc
+}
+
 pub fn combo_scenarios(thorough: bool) -> Vec<Scenario> {
     let d = |q: usize, t: usize| if thorough { t } else { q };
     vec![
@@ -933,6 +954,7 @@ pub fn combo_scenarios(thorough: bool) -> Vec<Scenario> {
         nested_deleted_scenario("combo-outer-element-survives-inner-array-deleted", d(2, 3), &[]),
         independent_origins_scenario("combo-independent-origins", d(4, 5), &[]),
         shared_storage_scenario("combo-two-instances-on-one-storage", d(4, 5), &[]),
+        travel_meld_scenario("combo-meld-with-a-travelled-replica", d(3, 4), &[]),
     ]
 }
 
